@@ -4,26 +4,30 @@ From KM Require Import Model.Session Proofs.Session.
 Import ListNotations.
 
 (* For EVERY history (any length, any number of users and sessions, any enrolment `d`, any
-   web-UI mask `w`, any cookies attached in any order), every cookie the server has issued and
-   every factor bit in its level: that factor was proved for the cookie's own user. *)
+   web-UI mask `w`, any cookies attached in any order, any request made with a verified client
+   certificate of any user and/or while profile writes fail), every cookie the server has issued
+   and every factor bit in its level: that factor was proved for the cookie's own user. *)
 Theorem c05_inv : forall d w ops c f,
   In c (issued (fst (run (fixed d w) init ops))) -> has (clevel c) f = true ->
   In (cuser c, f) (proved (fst (run (fixed d w) init ops))).
 Proof.
-  intros d w ops c f Hc Hf. destruct (run_Inv (fixed d w) ops eq_refl) as [I1 _]. exact (I1 c Hc f Hf).
+  intros d w ops c f Hc Hf. destruct (run_Inv (fixed d w) ops eq_refl eq_refl) as [I1 _]. exact (I1 c Hc f Hf).
 Qed.
 
-(* ... and `proved` is not touched by an operation whose positive answer is about another user
-   than the one whose session the request runs in: a push approval, OTP, TOTP code, bootstrap
-   OTP, hardware-token assertion or CLI token belonging to someone else changes nothing and no
-   cookie is emitted *)
-Theorem c05_no_cross_user : forall d w ops o u u',
+(* ... and an operation whose positive answer is about another user than the one the request is
+   authenticated as (by client certificate, else by the last attached cookie) — a push approval,
+   OTP, TOTP code, bootstrap OTP, hardware-token assertion or CLI token belonging to someone else —
+   changes nothing but the ghost record of the presented certificate, and emits no cookie *)
+Theorem c05_no_cross_user : forall d w ops cert fault o u u',
   let s := fst (run (fixed d w) init ops) in
-  about s o = Some u -> requester (fixed d w) s o = Some u' -> u <> u' ->
-  step (fixed d w) s o = (s, None).
+  about s o = Some u -> requester (fixed d w) s cert o = Some u' -> u <> u' ->
+  step (fixed d w) s (Req cert fault o) = (present_cert s cert, None).
 Proof.
-  intros d w ops o u u' s Ha Hr Hne.
-  exact (cross_user_refused (fixed d w) s o u u' eq_refl (run_Inv (fixed d w) ops eq_refl) Ha Hr Hne).
+  intros d w ops cert fault o u u' s Ha Hr Hne. cbn [step].
+  destruct (present_cert_Inv s cert (run_Inv (fixed d w) ops eq_refl eq_refl)) as [HI _].
+  apply (cross_user_refused (fixed d w) cert fault (present_cert s cert) o u u' eq_refl HI); [| |exact Hne].
+  - rewrite about_present. exact Ha.
+  - rewrite requester_present. exact Hr.
 Qed.
 
 (* one-time values: acceptance records the value, a recorded value is never accepted again, so
@@ -41,10 +45,10 @@ Proof.
   - destruct HJ as [J0 _]. exact J0.
 Qed.
 
-(* expired values never work, in any state *)
-Theorem c05_expired : forall d w s o,
-  expired (fixed d w) s o = true -> step (fixed d w) s o = (s, None).
-Proof. intros d w s o. apply expired_refused. reflexivity. Qed.
+(* expired values never work, in any state, however the request is authenticated *)
+Theorem c05_expired : forall d w cert fault s o,
+  expired (fixed d w) s cert o = true -> step_req (fixed d w) cert fault s o = (s, None).
+Proof. intros d w cert fault s o. apply expired_refused. reflexivity. Qed.
 
 (* the statement is false of the handlers as they were *)
 Theorem c05_old_poll_refuted :
@@ -64,13 +68,27 @@ Theorem c05_old_challenge_refuted :
   NoDup (spent (fst (run (cfg_with true true true true) init w_chal_twice))).
 Proof. exact old_challenge. Qed.
 
+(* updateAuthCookieAuthlevel as it was: [Login bob; IssueOtp alice; Bootstrap authenticated by
+   alice's client certificate with her own OTP and bob's cookie attached] gives bob's session the
+   bootstrap and certificate factors alice proved; the repaired upgrade emits nothing *)
+Theorem c05_old_cert_cookie_refuted :
+  let s := fst (run cfg_old_upgrade init w_cert) in
+  (exists c, In c (issued s) /\ cuser c = 2%N /\ has (clevel c) F_BOOT = true /\ has (clevel c) F_X509 = true /\
+             ~ In (2%N, F_BOOT) (proved s) /\ ~ In (2%N, F_X509) (proved s)) /\
+  nth 2 (snd (run cfg_new_upgrade init w_cert)) None = None.
+Proof. exact old_cert_cookie. Qed.
+
 (* non-vacuity: a complete two-factor history; the TOTP value stops working; the other user's
-   session attached FIRST is not the one that is upgraded *)
+   session attached FIRST is not the one that is upgraded; a certificate-authenticated upgrade of
+   the own cookie replaces its level by certificate|factor *)
 Example c05_history :
   let d := fun _ => {| has_totp := true; has_u2f := false; has_wa := false; has_profile := true |} in
   map (fun o => match o with Some c => Some (cuser c, clevel c) | None => None end)
       (snd (run (fixed d 64) init
         [Tick 3000; Login 1 true; Login 2 true; Totp [1%nat; 0%nat] (TCode 1 100); Totp [0%nat] (TCode 1 100);
-         Totp [1%nat] (TCode 1 100); ShowTok [2%nat] 1000; SendDoc [2%nat] 0; SendDoc [1%nat] 0]))
-  = [None; Some (1, 2); Some (2, 2); Some (1, 66); None; None; None; Some (1, 1024); None]%N.
+         Totp [1%nat] (TCode 1 100); ShowTok [2%nat] 1000; SendDoc [2%nat] 0; SendDoc [1%nat] 0;
+         Req (Some 1%N) false (Totp [1%nat] (TCode 1 101)); Req (Some 1%N) false (Totp [0%nat] (TCode 1 101));
+         Tick 30; Req (Some 1%N) false (Totp [0%nat] (TCode 1 102))]))
+  = [None; Some (1, 2); Some (2, 2); Some (1, 66); None; None; None; Some (1, 1024); None;
+     None; None; None; Some (1, 576)]%N.
 Proof. vm_compute. reflexivity. Qed.
